@@ -16,7 +16,7 @@ CHECKS = {
  "C02": ("exploration", "seeded history simulation vs sorted reference model (order, extremes, Floor/Ceiling over all probes after every step)",
          "Strict ascending order of Keys/Values/iteration, Left/Right/Min/Max/LeftKey/RightKey and Floor/Ceiling for every probe (present, absent, between neighbours, beyond both ends) are compared with a sorted reference after every step; node-level navigation (AVL Node.Next/Prev chains, GetNode, red-black IteratorAt) must agree with it. Comparators include natural, reversed, coarsened and four that are legal but not -1/0/1 (large, subtraction, MinInt/MaxInt, sign-aware float order with NaN and both zeros). " + DEGENERATE, "4 C02, 10.2"),
  "C03": ("exploration", "seeded history simulation vs slice reference model, the three lists against one sequence",
-         "Values/Size/Get(-1..size)/IndexOf/Contains of the three lists equal an abstract sequence after every step of seeded histories with boundary-biased indices and variadic counts 0..9. " + DEGENERATE, "4 C03"),
+         "Values/Size/Get(-1..size)/IndexOf/Contains of the three lists equal an abstract sequence after every step of seeded histories with boundary-biased indices and variadic counts 0..9, Sort by the comparator and by its reverse, the list's own Values() handed back to Add/Prepend/Insert/Contains, and the same call repeated twice in a row. " + DEGENERATE, "4 C03"),
  "C04": ("exploration", "seeded history simulation vs set reference model",
          "Contains over the whole domain, multi-argument Contains, Size and Values-once are compared with a reference set after every variadic Add/Remove/Clear. " + DEGENERATE, "4 C04"),
  "C05": ("exploration", "seeded history simulation vs LIFO/FIFO/bounded-FIFO reference model",
@@ -33,7 +33,7 @@ CHECKS = {
          "Get/GetKey consistency in both directions over the whole key and value tables, no shared value, Size=len(Keys)=len(Values) and equality with the eviction model after every step, value tables small enough to force every collision kind, coarsened key and value comparators. " + DEGENERATE, "4 C10"),
  "C11": ("exploration", "deterministic simulation of the persistence boundary: checkpoint, crash-restart into a fresh container, forked drains (durability round trip)",
          "All 21 kinds under seeded histories with checkpoint and crash-restart as generated operations: at every checkpoint ToJSON must be valid JSON of the right top-level kind and the same document (token sequence; multiset for hash kinds) as json.Marshal(container); at every restart the document is reloaded (FromJSON / UnmarshalJSON / json.Unmarshal) into a fresh container of the same configuration which must equal the model and the live container (size, content, order) and drain (Pop/Dequeue) like the live one; the run then continues on the restarted container; drains are compared with full element identity; documents returned by ToJSON are held and must not change later; one run in six uses struct, map, slice, pointer and any values in the key-value containers. Ring capacities 1-9 incl. wrapped and partial states, B-tree orders to 256, int and string keys, values textually equal to keys. Sampled.", "4 C11"),
- "C12": ("fault_enumeration", "deterministic simulation with fault injection on the snapshot store (16 fault kinds on the bytes between ToJSON and FromJSON), thorough tier enumerates every truncation offset",
+ "C12": ("fault_enumeration", "deterministic simulation with fault injection on the snapshot store (17 fault kinds on the bytes between ToJSON and FromJSON), thorough tier enumerates every truncation offset",
          "Loads onto live containers with arbitrary prior content of bytes that are intact, stale (lost write), of the wrong document kind, torn, bit-flipped, structurally overwritten, span-dropped/duplicated/swapped, garbage-appended, zero-filled, wrongly typed at an element, duplicated, re-encoded (whitespace, \\u escapes) or partially-structured. Error => observable state (all observers + ToJSON) identical to before; success => content equals what a reference decoder (encoding/json into plain Go values + the kind's normalisation) says the bytes denote, success on invalid JSON is a violation; afterwards the run continues under the C01-C06/C09/C10/C15 oracles. The thorough tier additionally enumerates, for a snapshot, every truncation offset, every single-bit flip and every single-byte structural overwrite (fault enumeration); everything else is sampled, including loads onto containers of 1000-2200 elements.", "4 C12, 3.5"),
  "C13": ("exploration", "seeded history simulation of two sets vs set-algebra reference model, independence probes by mutation",
          "Pairs of sets of the same kind built by seeded histories (free, disjoint, nested, equal, one empty, either larger, same object as both operands); members of Intersection/Union/Difference are compared with the model, operands must be observably unchanged, then result, a and b are mutated in turn and the others must not move; TreeSet results must stay ascending under the operands' comparator after further Adds, and results are used as operands of further algebra (chaining). " + DEGENERATE, "4 C13"),
@@ -51,20 +51,20 @@ CHECKS = {
 
 # additions after the fourth wave of seeded changes (DESIGN.md 10.2, 10.4)
 EXTRA = {
- "C01": " Scale runs (33 000-70 000 keys through growth, removal of half, Clear and re-use, closed-form expectations) and a probe of the default constructors over float32, a named float64 with NaN, int8, uint16 and a named string.",
+ "C01": " Scale runs (33 000-70 000 keys through growth, removal of half, Clear and re-use, closed-form expectations) and a probe of the default constructors over float32, a named float64 with NaN, int8, uint16 and a named string. Histories include a Put of the very pair the map already holds and the same call repeated twice in a row.",
  "C02": " Scale runs with 200 000-262 144 keys in ascending or descending order (Keys, Values, both iteration directions, Floor/Ceiling, Min/Max by arithmetic); default-constructor probe over other ordered types.",
- "C04": " Scale runs (33 000-70 000 members); default-constructor probe over other ordered types.",
+ "C04": " Scale runs (33 000-70 000 members); default-constructor probe over other ordered types. The set's own Values() is handed back to Add, Remove (all, or all but one member) and Contains; the same call is repeated twice in a row.",
  "C05": " One ring run in ten uses capacities 1024-4096 filled to about the capacity in one step; float elements are compared by exact rendering (-0 is not +0).",
- "C06": " Loads go through FromJSON, UnmarshalJSON and json.Unmarshal; default-constructor probe over other ordered types.",
+ "C06": " Loads go through FromJSON, UnmarshalJSON and json.Unmarshal; default-constructor probe over other ordered types. The heap's own Values() is handed back to Push.",
  "C07": " TreeBidiMap.GetKey is counted too, with value tables as large as the key table.",
- "C09": " Scale runs (33 000-70 000 keys in insertion order through removal, Clear and re-use).",
+ "C09": " Scale runs (33 000-70 000 keys in insertion order through removal, Clear and re-use). The containers' own iterators are walked in both directions against Keys()/Values().",
  "C10": " Scale runs (33 000-70 000 pairs, Get/GetKey by arithmetic, through removal, Clear and re-use).",
- "C11": " Value shapes include containers as values of containers (recursive ToJSON); the key pools end in pairs that collide under common 32-bit hashes.",
- "C12": " Two further fault kinds: F15 permuted elements/members and F16 a second member whose name is another spelling of a present key; one large run in three produces documents beyond 64 KiB.",
- "C13": " Algebra calls with a TreeSet of another comparator function are interleaved (result unjudged, operands and later same-comparator algebra judged); scale runs with operands of 33 000-70 000 members.",
+ "C11": " Value shapes include containers as values of containers (recursive ToJSON); the key pools end in pairs that collide under common 32-bit hashes. The histories contain read-only and enumerable calls (what a read leaves behind must not outlive a restart); the reloaded container's iterators are walked both ways and Each is judged against them.",
+ "C12": " Two further fault kinds: F15 permuted elements/members and F16 a second member whose name is another spelling of a present key; one large run in three produces documents beyond 64 KiB. F17 foreign writer: documents written under another order (several distinct keys of the document are one key for the loading container's comparator) and, in a probe of its own, freely spelled member names for a key type that implements encoding.TextUnmarshaler. The histories contain read-only and enumerable calls, one load in three is directly preceded by one; after every load the iterators are walked both ways and Each/Any/All/Find are judged against them.",
+ "C13": " Algebra calls with a TreeSet of another comparator function are interleaved (result unjudged, operands and later same-comparator algebra judged); scale runs with operands of 33 000-70 000 members. Every algebra call is made twice: the second result is left alone while the first result and both operands are mutated (also through Clear, a load that fails and a load that succeeds), must still hold what the call returned, and is then emptied.",
  "C14": " Float elements (both zeros, infinities, NaN keys for the tree kinds); a result must serialise like a fresh container holding the same elements.",
  "C15": " Scale runs: Clear of 33 000-70 000 elements compared with a fresh instance.",
- "C16": " A callee must also leave the slice it was given, and the spare capacity behind it, unchanged.",
+ "C16": " A callee must also leave the slice it was given, and the spare capacity behind it, unchanged. Two slices returned by Values()/Keys() never share memory: writing to (or sorting) a later one leaves an earlier one as it was. The container's own Values() is handed back to Add/Insert/Push.",
  "C17": " The catalogue includes containers as values of containers (a call that blocks for ever is reported through the Go runtime's deadlock fatal error, confirmed from the regenerated plan) and algebra between TreeSets of different comparator functions.",
  "C18": " Peak-and-shrink runs (Fill to 1100-3000, one bulk removal), deep-tree runs (8192+ ascending keys; both readers run the whole read catalogue in the same order before any sequential reference call) and Contains with 33-48 arguments.",
 }
